@@ -7,6 +7,7 @@ package main
 import (
 	"bufio"
 	"bytes"
+	"crypto/ed25519"
 	"encoding/json"
 	"fmt"
 	"io"
@@ -85,6 +86,8 @@ type robustEnv struct {
 	handler *dochandler.DocumentHandler
 	signer  *Key
 	existRM *protocol.ResolutionModel
+
+	followUps []patch.Patch
 }
 
 func newRobustEnv(seed int64) *robustEnv {
@@ -115,7 +118,12 @@ func (e *robustEnv) template(name string) interface{} {
 	base.KeyNonce = true
 
 	switch name {
-	case "create", "update", "recover", "deactivate", "update_disabled", "create_disabled":
+	case "create", "update", "recover", "deactivate", "update_disabled", "create_disabled", "recover_object_origin", "create_object_origin":
+		if strings.HasSuffix(name, "_object_origin") {
+			base.Ao = 102
+			name = strings.TrimSuffix(name, "_object_origin")
+		}
+
 		base.Type = strings.TrimSuffix(name, "_disabled")
 		if strings.HasSuffix(name, "_disabled") {
 			// a patch action that the test protocol knows but does not enable; the delta of the create template
@@ -164,6 +172,16 @@ func (e *robustEnv) template(name string) interface{} {
 		}
 	case "patch_keys":
 		return e.cenv.patchJSON(&CPatch{A: "add-public-keys", Ents: []CEnt{{1, 1}, {2, 2}}})
+	case "patch_keys_ed":
+		ed := e.conc.pool.Get("ed", "robust-ed")
+		okp := func() map[string]interface{} {
+			return map[string]interface{}{"kty": "OKP", "crv": "Ed25519", "x": ed.JWK.X}
+		}
+
+		return map[string]interface{}{"action": "add-public-keys", "publicKeys": []interface{}{
+			map[string]interface{}{"id": "e1", "type": "Ed25519VerificationKey2018", "purposes": []interface{}{"authentication"}, "publicKeyJwk": okp()},
+			map[string]interface{}{"id": "e2", "type": "Ed25519VerificationKey2020", "purposes": []interface{}{"assertionMethod"}, "publicKeyJwk": okp()},
+			map[string]interface{}{"id": "e3", "type": "Ed25519VerificationKey2018", "publicKeyBase58": refBase58([]byte(ed.Pub.(ed25519.PublicKey)))}}}
 	case "patch_services":
 		return e.cenv.patchJSON(&CPatch{A: "add-services", Ents: []CEnt{{1, 2}}})
 	case "patch_services_objects":
@@ -525,7 +543,7 @@ func (e *robustEnv) call(ep, template string, input interface{}) (outcome string
 
 	raw := asBytes(input)
 
-	opType := operation.Type(strings.TrimSuffix(template, "_disabled"))
+	opType := operation.Type(strings.TrimSuffix(strings.TrimSuffix(template, "_disabled"), "_object_origin"))
 	if m, ok := input.(map[string]interface{}); ok {
 		if t, ok := m["type"].(string); ok {
 			opType = operation.Type(t)
@@ -627,13 +645,33 @@ func (e *robustEnv) call(ep, template string, input interface{}) (outcome string
 
 		worst := "ok"
 
-		for _, d := range []document.Document{doc, {}, {"publicKey": []interface{}{e.cenv.keyJSON(CEnt{1, 1})}},
+		// the ordinary patches that follow a hostile one: what it leaves behind is the document they work on
+		if e.followUps == nil {
+			for _, t := range []string{"patch_keys", "patch_services", "patch_aka", "patch_jsonpatch", "patch_replace", "patch_remove_keys", "patch_remove_services"} {
+				var fp patch.Patch
+
+				_ = json.Unmarshal(asBytes(e.template(t)), &fp)
+				e.followUps = append(e.followUps, fp)
+			}
+		}
+
+		// (the third document: lists with entries that are no objects in front of, between and behind well-formed ones)
+		junk := document.Document{"publicKey": []interface{}{7.0, e.cenv.keyJSON(CEnt{1, 1}), nil, "x", e.cenv.keyJSON(CEnt{2, 1})},
+			"service": []interface{}{nil, e.cenv.svcJSON(CEnt{1, 1}), 5.0}, "alsoKnownAs": []interface{}{1.0, "https://aka1.example/"}}
+
+		for _, d := range []document.Document{doc, {}, {"publicKey": []interface{}{e.cenv.keyJSON(CEnt{1, 1})}}, junk,
 			{"id": "did:example:123", "other": map[string]interface{}{"a": 1.0, "arr": []interface{}{1.0, 2.0}}}} {
 			beforeDoc, beforePatch := digestJSON(d), digestJSON(p)
 
 			out, err := doccomposer.New().ApplyPatches(d, []patch.Patch{p})
 			if err != nil {
 				worst = "err"
+			}
+
+			if err == nil && out != nil {
+				for _, fp := range e.followUps {
+					_, _ = doccomposer.New().ApplyPatches(out, []patch.Patch{fp})
+				}
 			}
 
 			// C12 (mutation mode): a failing patch list yields an error and no (partial) document
@@ -664,6 +702,16 @@ func (e *robustEnv) call(ep, template string, input interface{}) (outcome string
 		beforeOp, beforeRM := digestJSON(op), digestJSON(rm)
 
 		_, err := e.applier.Apply(op, rm)
+
+		// the same operation against states whose anchor origin is a string, an object, a list (what a state holds is
+		// compared with what a request brings: every pairing of kinds has to be survived)
+		if opType != operation.TypeCreate {
+			for _, ao := range []interface{}{"origin-1", map[string]interface{}{"o": 1.0, "l": []interface{}{1.0}}, []interface{}{"a", map[string]interface{}{"b": 1.0}}, 7.0, true} {
+				alt := *rm
+				alt.AnchorOrigin = ao
+				_, _ = e.applier.Apply(op, &alt)
+			}
+		}
 
 		if mutationMode() {
 			if digestJSON(op) != beforeOp {
